@@ -146,6 +146,21 @@ PROPS = {
                  'FileReadWriteVolatile::{read,write}_vectored(_at)_volatile fill exactly the reported prefix of the offered bytes and nothing on error (readv/preadv semantics)',
                  'rule R23: the ghost dirty-log parameter threaded through the real functions is erased by Verus (no run-time meaning); ABSTRACT of copy_nonoverlapping by vx_copy_to_guest'],
     ),
+    'C20': dict(
+        vx_units=['asyncsrv', 'asyncdevw', 'server'], kx=[],
+        design_ref='DESIGN.md A.4',
+        not_covered=[
+            'which error reply (or none) a MALFORMED request gets: the specification allows any well-formed error reply there, so two different ones would both verify (by reading, the two paths are identical)',
+            'that a reply IS sent / the operation IS invoked (contracts forbid, they cannot demand) and the return value of the handlers',
+            'interleavings with other tasks, cancellation at an await point, Send and lifetime obligations of the futures (rule R18 drops `async` and `.await`)',
+            'bytes moved through AsyncZcWriter / AsyncZcReader; VirtioFsWriter async entry points (forward to sync, by reading); FuseDevWriter::async_write* bodies (closures capturing &mut self)',
+            'AsyncFileSystem impls of Vfs and Arc<FS>; sync results carrying a passthrough backing id have no async counterpart (API gap)',
+            'logging and MetricsHook calls',
+        ],
+        trusted=['T3/T4 as C01', 'T4a Writer::async_write* / async_commit have the contracts of their sync twins (async_commit checked on the real text in unit asyncdevw; nix pwrite is a device write under the same capability)',
+                 'T8a the AsyncFileSystem model is generated from the trait text and ties async_<op> to the capability and result of the sync <op> (argument lists compared name by name and type by type)',
+                 'rule R18: `async fn` verified as `fn`, `e.await` as `e` (sequential reasoning)', 'contracts of the 37 fallback sync handlers: proved in unit server'],
+    ),
     'C13': dict(
         vx_units=[], kx=['abi'],
         design_ref='DESIGN.md section 5, C13',
